@@ -273,39 +273,72 @@ def run_shards(prop, tier, seed, suffix="", nshards=None, extra_args=(), batch=0
     if os.environ.get("VERIF_RUNS"):
         extra += ["--runs", os.environ["VERIF_RUNS"]]
     setarch = shutil.which("setarch")
-    procs = []
-    for i in range(nshards):
+
+    def launch(i, skip):
         cmd = [binary, "run", "--prop", prop, "--tier", tier, "--seed", str(seed), "--shard", str(i),
                "--nshards", str(nshards), "--out", outdir] + extra
+        if skip:
+            cmd += ["--skip-programs", ",".join(sorted(skip))]
         if prop == "C20" and setarch and i % 2 == 1:
             cmd = [setarch, os.uname().machine, "-R"] + cmd
         out = open(os.path.join(outdir, "shard-%d.stdout" % i), "w")
-        procs.append((i, subprocess.Popen(cmd, stdout=out, stderr=subprocess.STDOUT, env=shard_env(i, prop), cwd=outdir,
-                                          preexec_fn=limit_memory), out))
-    results, bad = [], []
-    deadline = time.time() + float(os.environ.get("VERIF_SHARD_TIMEOUT", "3000"))
-    for i, p, out in procs:
+        return subprocess.Popen(cmd, stdout=out, stderr=subprocess.STDOUT, env=shard_env(i, prop), cwd=outdir, preexec_fn=limit_memory), out
+
+    def current_program(i):
         try:
-            rc = p.wait(timeout=max(1.0, deadline - time.time()))
-        except subprocess.TimeoutExpired:
-            p.kill()
-            p.wait()
-            rc = "timeout"
-        out.close()
-        path = os.path.join(outdir, "shard-%d.json" % i)
-        if rc != 0 or not os.path.exists(path):
-            tail = open(os.path.join(outdir, "shard-%d.stdout" % i), errors="replace").read()[-3000:]
-            bad.append("shard %d exited %s\n%s" % (i, rc, tail))
-            # a worker writes its findings as soon as it has them: what it found before it died counts
-            if os.path.exists(path):
-                try:
-                    partial = json.load(open(path))
-                    if partial.get("violations"):
-                        results.append(partial)
-                except ValueError:
-                    pass
-            continue
-        results.append(json.load(open(path)))
+            return open(os.path.join(outdir, "shard-%d.current" % i)).read().strip() or None
+        except OSError:
+            return None
+
+    results, bad = [], []
+    skipped = {}           # shard -> programs left out after that shard's worker died while running them
+    wave = {i: set() for i in range(nshards)}
+    for attempt in range(4):
+        procs = [(i, launch(i, skip)) for i, skip in sorted(wave.items())]
+        deadline = time.time() + float(os.environ.get("VERIF_SHARD_TIMEOUT", "3000"))
+        again = {}
+        for i, (p, out) in procs:
+            try:
+                rc = p.wait(timeout=max(1.0, deadline - time.time()))
+            except subprocess.TimeoutExpired:
+                p.kill()
+                p.wait()
+                rc = "timeout"
+            out.close()
+            path = os.path.join(outdir, "shard-%d.json" % i)
+            died = rc == "timeout" or (isinstance(rc, int) and rc < 0) or (rc != 0 and not os.path.exists(path))
+            if rc != 0 or not os.path.exists(path):
+                tail = open(os.path.join(outdir, "shard-%d.stdout" % i), errors="replace").read()[-3000:]
+                partial = None
+                if os.path.exists(path):
+                    try:
+                        partial = json.load(open(path))
+                    except ValueError:
+                        partial = None
+                # a worker writes its findings as soon as it has them: what it found before it died counts
+                if partial and partial.get("violations"):
+                    results.append(partial)
+                    bad.append("shard %d exited %s\n%s" % (i, rc, tail))
+                    continue
+                cur = current_program(i)
+                if died and cur and attempt < 3 and cur not in wave[i]:
+                    # the process died inside a run (on a changed tree a close can run away between two
+                    # polls and end as an allocation failure or at the time limit): run the shard again
+                    # without the program it was executing
+                    M.log("[warn] shard %d died (%s) while running %s: shard restarted without that program" % (i, rc, cur))
+                    again[i] = wave[i] | {cur}
+                    skipped.setdefault(i, set()).add(cur)
+                    try:
+                        os.remove(path)
+                    except OSError:
+                        pass
+                    continue
+                bad.append("shard %d exited %s\n%s" % (i, rc, tail))
+                continue
+            results.append(json.load(open(path)))
+        if not again:
+            break
+        wave = again
     for r in results:
         for v in r.get("violations", []):
             v["binary"] = binary
@@ -324,6 +357,7 @@ def run_shards(prop, tier, seed, suffix="", nshards=None, extra_args=(), batch=0
         rejected = [l.strip() for l in open(diag) if l.startswith("rejected")]
     extra_cov = {"corpus": {"generator_seed": GEN_SEED, "programs": results[0].get("counters", {}).get("programs") if results else None,
                             "index_families": index_families(corpus_dir(tier, batch)),
+                            "programs_left_out_after_a_worker_died_running_them": {str(k): sorted(v) for k, v in sorted(skipped.items())},
                             "dropped_uncompilable": excluded,
                             "generated_programs_rejected_by_the_compiler": len(rejected),
                             "of_which_tempting_surjectivity_violations": len([r for r in rejected if "does not appear earlier" in r])}}
